@@ -110,44 +110,53 @@ func checkC04() fw.Check {
 							v, df, w, b := v, df, w, b
 							id := fmt.Sprintf("C04/%s/%s/%d-%d/%s", v.Name, df.name, w.first, w.last, b.name)
 							cases = append(cases, fw.Case{ID: id, Bubble: true, Run: func(c *fw.Ctx) {
-								dist := (w.first + w.last + 1) / 2
-								for _, reach := range []bool{true, false} {
-									for _, pos := range []string{"before", "at", "after"} {
-										for _, rc := range []string{"target", "on-path-router", "off-path-host", "local-address"} {
-											for _, early := range []bool{true, false} {
-												at := map[string]int{"before": dist - 1, "at": dist, "after": dist + 1}[pos]
-												if at < w.first || at > w.last {
-													continue
-												}
-												tag := fmt.Sprintf("%s reach=%v pos=%s responder=%s early=%v", id, reach, pos, rc, early)
-												sc := scenario{tag: tag, v: v, win: w, b: b, model: func(e *simEnv) *pathModel {
-													m := simplePathWin(v, w, dist, reach, 9*time.Millisecond)
-													m.extra = func(e *simEnv, p *refmatch.Probe) {
-														if p.TTL != at {
-															return
-														}
-														d := 4 * time.Millisecond // before the genuine reply of this TTL (>= 9 ms)
-														if !early {
-															d = 400 * time.Millisecond
-														}
-														e.inject(df.build(e, p, responders(e, at)[rc]), "special:"+df.name+":"+rc, p, oddUS(d))
+								dists := []int{(w.first + w.last + 1) / 2}
+								if tier == "thorough" {
+									for d := w.first + 1; d < w.last; d++ {
+										if d != dists[0] {
+											dists = append(dists, d)
+										}
+									}
+								}
+								for _, dist := range dists {
+									for _, reach := range []bool{true, false} {
+										for _, pos := range []string{"before", "at", "after"} {
+											for _, rc := range []string{"target", "on-path-router", "off-path-host", "local-address"} {
+												for _, early := range []bool{true, false} {
+													at := map[string]int{"before": dist - 1, "at": dist, "after": dist + 1}[pos]
+													if at < w.first || at > w.last {
+														continue
 													}
-													return m
-												}}
-												out := runScenario(c, sc)
-												if out == nil {
-													continue
-												}
-												for i := range out.js {
-													if cl := out.js[i].d.Frame.Class; len(cl) > 8 && cl[:8] == "special:" && out.res.Err == nil {
-														c.Nontrivial(fmt.Sprintf("%s/%s/%s/%s/reach%v", v.Name, df.name, rc, pos, reach))
-														c.Count("special_"+out.js[i].out.Kind.String(), 1)
+													tag := fmt.Sprintf("%s reach=%v pos=%s responder=%s early=%v", id, reach, pos, rc, early)
+													sc := scenario{tag: tag, v: v, win: w, b: b, model: func(e *simEnv) *pathModel {
+														m := simplePathWin(v, w, dist, reach, 9*time.Millisecond)
+														m.extra = func(e *simEnv, p *refmatch.Probe) {
+															if p.TTL != at {
+																return
+															}
+															d := 4 * time.Millisecond // before the genuine reply of this TTL (>= 9 ms)
+															if !early {
+																d = 400 * time.Millisecond
+															}
+															e.inject(df.build(e, p, responders(e, at)[rc]), "special:"+df.name+":"+rc, p, oddUS(d))
+														}
+														return m
+													}}
+													out := runScenario(c, sc)
+													if out == nil {
+														continue
 													}
+													for i := range out.js {
+														if cl := out.js[i].d.Frame.Class; len(cl) > 8 && cl[:8] == "special:" && out.res.Err == nil {
+															c.Nontrivial(fmt.Sprintf("%s/%s/%s/%s/reach%v", v.Name, df.name, rc, pos, reach))
+															c.Count("special_"+out.js[i].out.Kind.String(), 1)
+														}
+													}
+													if rc == "on-path-router" && pos == "at" && reach && early {
+														c.Sample(map[string]any{"case": tag, "result": fmtRun(out.res)})
+													}
+													out.e.close()
 												}
-												if rc == "on-path-router" && pos == "at" && reach && early {
-													c.Sample(map[string]any{"case": tag, "result": fmtRun(out.res)})
-												}
-												out.e.close()
 											}
 										}
 									}
@@ -353,7 +362,7 @@ func checkC06() fw.Check {
 			// from run to run; many full-window runs sweep the checksum space (a computed checksum of 0 must go out as 0xffff)
 			hunts := 24
 			if tier == "thorough" {
-				hunts = 400
+				hunts = 1500
 			}
 			for i := 0; i < hunts; i++ {
 				for _, vn := range []string{"udp6", "udp4"} {
